@@ -342,6 +342,7 @@ pub fn gen_plan(rng: &mut Rng, prof: &Profile, thorough: bool) -> Plan {
                 raw_payload_hex: None,
                 label,
                 gate: Gate::None,
+                hash_hex_override: None,
             });
             uid += 1;
             next_id += 1;
@@ -399,6 +400,16 @@ pub fn gen_plan(rng: &mut Rng, prof: &Profile, thorough: bool) -> Plan {
             r.copy_from_slice(&rng.bytes(32));
             r
         };
+        if rng.chance(1, 4) {
+            // a payment hash that is not 32 bytes long: a prefix or an extension of the honest one
+            let mut h = src.htlc_hash.to_vec();
+            if rng.chance(1, 2) {
+                h.truncate(31 - rng.below(3) as usize);
+            } else {
+                h.push(rng.u64() as u8);
+            }
+            x.hash_hex_override = Some(hex::encode(h));
+        }
         x.label = ref_label(&x.htlc_hash, &x.onion_scid, &x.forward_msat, &x.metadata, cfg.allow_self);
         // right after the honest HTLC, or at the end
         let pos = if rng.chance(1, 2) { htlcs.iter().position(|h| h.uid == src.uid).map(|p| p + 1).unwrap_or(htlcs.len()) } else { htlcs.len() };
@@ -477,6 +488,7 @@ pub fn gen_plan(rng: &mut Rng, prof: &Profile, thorough: bool) -> Plan {
             raw_payload_hex: None,
             label,
             gate: Gate::None,
+            hash_hex_override: None,
         });
         uid += 1;
         next_id += 1;
